@@ -240,7 +240,7 @@ def run(ctx):
         "dynamic_op_sets": nsets, "dynamic_stats": dstats, "dynamic_reports": dyn_counts,
         "dynamic_reports_explained_by_key": explained, "dynamic_reports_unexplained": unexplained,
         "traces_validated_against_impl": nsets,
-        "exhaustive": "static part: complete for the three packages; dynamic part: sampled",
+        "exhaustive": False, "exhaustive_note": "static part: complete for the three packages; dynamic part: sampled",
         "samples": [{"fact": (facts.get("Facts") or [None])[0]},
                     {"run": {k: runs[0][k] for k in ("ops", "seed", "exit", "ms")} if runs else None,
                      "first_finding": (runs[0].get("findings") or [None])[0] if runs else None}],
